@@ -112,6 +112,7 @@ class TimerScheduler:
             current_time = time.time()
             if current_time >= next_resume_time:
                 # Time to resume
+                exe_state = None
                 with self._lock:
                     # no branch cover because hard to test reliably - this is a double-safety check if heap mutated
                     # since the first peek on next_resume_time further up
@@ -120,9 +121,11 @@ class TimerScheduler:
                         and self._pending_resumes[0][0] <= current_time
                     ):
                         _, _, exe_state = heapq.heappop(self._pending_resumes)
-                        if exe_state.can_resume:
-                            exe_state.reset_to_pending()
-                            self.resubmit_callback(exe_state)
+                # Resubmit outside the lock: the callback blocks on a checkpoint and takes the
+                # executor's lock, while done-callbacks holding that lock call schedule_resume().
+                if exe_state is not None and exe_state.can_resume:
+                    exe_state.reset_to_pending()
+                    self.resubmit_callback(exe_state)
             else:
                 # Wait until next resume time
                 wait_time = min(next_resume_time - current_time, 0.1)
